@@ -25,9 +25,9 @@ CHECK = Check(
         "theorems are over exact real arithmetic (Real.rpow, Real.tanh); floating-point round-off is covered by "
         "execution only: the KSPEC families run the specification at Float against the real Go code",
         "conditioning filter of the generators (harness models_rr.go): cases are compared only where the implementation "
-        "itself is insensitive (<= 1e-10) to a 1e-13 perturbation of its inputs, and x2 >= -x3/2 is drawn when x2 < 0 "
-        "(with a routing store of a few mm and a strongly negative x2 the daily recurrence is chaotic and amplifies "
-        "libm-level differences; exact-arithmetic theorems are unaffected)",
+        "itself is insensitive (<= 1e-10) to a 1e-13 perturbation of its inputs (with a routing store of a few mm and "
+        "a strongly negative x2 the daily recurrence is chaotic and amplifies libm-level differences to 1e-5 and "
+        "more; such series are shortened until well conditioned; exact-arithmetic theorems are unaffected)",
         "oracle for the failing-input search: an independent Go implementation of the published equations in "
         "convolution form (harness oracle_C15.go)",
     ],
